@@ -132,30 +132,31 @@ def run_case(c):
         # ------------------------------------------------------------ structure
         if c['fmt'] == 'json':
             if res.get('docs') is None:
-                # mechanism: is the only thing that breaks the array the bare '[exception] ...' text of a failed target?
+                # mechanism: is the only thing that breaks the array the error text of failed targets?  Two texts exist: the bare '[exception] ...' line of a target that could not be audited
+                # (possibly after an incomplete JSON object), and the "An exception occurred while scanning <target>:" + traceback block of the worker's last-resort handler.
                 import re as _re
-                stripped = _re.sub(r'(\x1b\[[0-9;]*m)?\[exception\][^\n\x1b]*(\x1b\[0m)?', 'null', r.out)
-                try:
-                    arr = json.loads(stripped)
-                    only_error_text = isinstance(arr, list) and '[exception]' in r.out
-                except ValueError:
-                    # error line printed after a JSON object inside one element: '{...}\n[exception] ...'
+                mechs, arr, only_error_text = [], None, False
+                stripped = r.out
+                if 'An exception occurred while scanning' in stripped:
+                    stripped, n_ = _re.subn(r'An exception occurred while scanning [^\n]*:\nTraceback \(most recent call last\):\n(?:[ \t][^\n]*\n|[^\n{\[\]]*\n)*?(?=\s*(?:, |\]|\{))', 'null', stripped)
+                    if n_:
+                        mechs.append('worker-exception-text-in-array')
+                if '[exception]' in stripped:
+                    stripped, n_ = _re.subn(r'(\x1b\[[0-9;]*m)?\[exception\][^\n\x1b]*(\x1b\[0m)?', 'null', stripped)
+                    if n_:
+                        mechs.append('error-text-of-failed-target-in-array')
+                for cand in (stripped, _re.sub(r'\}\s*null', '}', stripped)):   # second form: error line printed after a JSON object inside one element: '{...}\n[exception] ...'
                     try:
-                        arr = json.loads(_re.sub(r'\}\s*null', '}', stripped))
-                        only_error_text = isinstance(arr, list)
+                        a_ = json.loads(cand)
                     except ValueError:
-                        only_error_text = False
-                mech = 'error-text-of-failed-target-in-array' if only_error_text else 'other:' + tag
-                if not only_error_text and 'An exception occurred while scanning' in r.out:
-                    # the worker's last-resort handler returns "An exception occurred while scanning <target>:\n<traceback>" as that target's output: is that text the only thing that breaks the array?
-                    stripped2 = _re.sub(r'An exception occurred while scanning [^\n]*:\nTraceback \(most recent call last\):\n(?:[ \t][^\n]*\n|[^\n{\[\]]*\n)*?(?=\s*(?:, |\]|\{))', 'null', r.out)
-                    try:
-                        arr = json.loads(stripped2)
-                        if isinstance(arr, list):
-                            mech, only_error_text = 'worker-exception-text-in-array', True
-                    except ValueError:
-                        pass
-                viol.append(_v('C08/json-not-one-array:%s' % mech, 'stdout of a multi-target -j run is not a single JSON array', err=res.get('json_error'), out=r.out[:200] + ' ... ' + r.out[-300:]))
+                        continue
+                    if isinstance(a_, list):
+                        arr, only_error_text = a_, bool(mechs)
+                        break
+                if not only_error_text:
+                    mechs = ['other:' + tag]
+                for mech in mechs:
+                    viol.append(_v('C08/json-not-one-array:%s' % mech, 'stdout of a multi-target -j run is not a single JSON array', err=res.get('json_error'), out=r.out[:200] + ' ... ' + r.out[-300:]))
                 if only_error_text and len(arr) != len(names):
                     viol.append(_v('C08/block-count:json:%s' % tag, 'number of array elements (error texts counted) differs from the number of targets', got=len(arr), want=len(names)))
             else:
